@@ -12,7 +12,7 @@ CONSTANTS
   MaxClock = 3
   SignUntil = 0
   MaxTxns = 2
-  MaxBlocks = 3
+  MaxBlocks = 2
   MaxRecv = 1
   RecvTimes = {0}
   AllowResubmit = TRUE
